@@ -465,3 +465,22 @@ func H_C01_serve() {
 	vAssert("loop-ended-through-the-read-time-out", len(e.done) == 1 && e.conn.closed == 1)
 	vCover("serve")
 }
+
+// H_C01_appid: an Application ID that is the provisioned identifier followed by
+// 0..2 arbitrary bytes (padding, NUL termination, a longer name): the PDR is
+// parsed or refused - the agent neither panics nor exits.
+func H_C01_appid() {
+	n := vChoose("suffix_len", 3)
+	name := "app1" + string(vBytes("suffix", n))
+	tbl := map[string]appPFD{
+		"app1": {appID: "app1", flowDescs: []string{"permit out ip from 10.1.0.0/16 to assigned"}},
+		"app2": {appID: "app2", flowDescs: []string{"permit out ip from any to assigned"}},
+	}
+	p := pdr{srcIface: access, srcIfaceMask: 0xff, ueAddress: 0x0afa0005}
+	err := p.parseApplicationID(ie.NewApplicationID(name), tbl)
+	vObserve("appid", err != nil)
+	if n == 0 {
+		vAssert("provisioned-application-accepted", err == nil)
+	}
+	vCover("appid")
+}
